@@ -7,6 +7,7 @@
 (*   cb    - a SolOut callback of a low-level solver (recording SolOut)    *)
 (*   hk    - a decision point reported through the hook (see Trace_Radau)  *)
 (*   gap   - summary of elided events of a very long run                   *)
+(*   fact  - a relational fact about runs too long to trace line by line   *)
 (*   ret | abort - the run returned / was cut by budget or panicked        *)
 (*   pair  - two finished runs related by a relational clause              *)
 (* Per-event clauses (evaluation inside the span, callback protocol) are   *)
@@ -79,6 +80,12 @@ TraceEv ==
 
 \* decision points reported by the solver through the verification hook: consumed by Trace_Radau, skipped here
 TraceHk == IsEvent("hk") /\ UNCHANGED <<C, A>>
+
+\* a relational fact the recorder computed over runs that are too long to be traced line by line (e.g. more than 100000
+\* steps): the line names property and clause and carries the verdict
+TraceFact == /\ IsEvent("fact")
+             /\ IF Rec[l].ok THEN TRUE ELSE PrintT(<<"VIOL", Rec[l].prop, Rec[l].clause, Rec[l].id>>)
+             /\ UNCHANGED <<C, A>>
 
 X2AtZero == \E j \in 1..Len(C.script) : C.script[j].k = 0 /\ C.script[j].action = "modify_x2"
 
@@ -207,12 +214,14 @@ TraceRet ==
        /\ Viol("C08", "recorded", C08_Recorded(C, R))
        /\ Viol("C08", "direction", C08_Direction(C, R))
        /\ Viol("C09", "recorded", C09_Recorded(C, R))
+       /\ Viol("C09", "no_spurious", C09_NoSpurious(C, R))
        /\ Viol("C10", "recorded", C10_Recorded(C, R))
        /\ Viol("C10", "honoured", C10_Honoured(C, R))
        /\ Viol("C11", "options", C11_Options(C, R))
        /\ Viol("C18", "counters", C18_Counters(C, A, R))
        /\ Viol("C18", "intervals", C18_Intervals(C, R))
        /\ Viol("C15", "dae", C15_Dae(C, R))
+       /\ Viol("C15", "mass_reference", C15_MassRef(C, R))
        /\ Viol("C19", "protocol", C19_Protocol(C, A, R))
        /\ Viol("C19", "interpolant", IsLow(R) => (C06_Callback(A) /\ A.rsBad = 0))   \* "passing an interpolant valid on that interval"
        \* Level B conformance (drift, never a violation): attempt structure and the counters the model predicts
@@ -260,7 +269,7 @@ TracePair ==
                   [] OTHER                      -> PViol(p, Rel_EqualCb(Ra, Rb) /\ Ra.oded = Rb.oded)   \* double_from:k (states mapped back by the recorder)
     /\ UNCHANGED <<C, A>>
 
-TraceNext == TraceCall \/ TraceOde \/ TraceJac \/ TraceEv \/ TraceHk \/ TraceCb \/ TraceGap \/ TraceRet \/ TraceAbort \/ TracePair
+TraceNext == TraceCall \/ TraceOde \/ TraceJac \/ TraceEv \/ TraceHk \/ TraceFact \/ TraceCb \/ TraceGap \/ TraceRet \/ TraceAbort \/ TracePair
 TraceSpec == TraceInit /\ [][TraceNext]_tvars
 
 TraceAccepted ==
